@@ -383,6 +383,18 @@ class Prop(BaseProp):
                             f"value in effect {got!r}", wit)
             else:
                 res.count("wrong_type_rejected")
+            if ty == "union":
+                # the exclude patterns of ALL sources are in effect, so a wrong-typed value must be rejected in whichever source
+                # it stands -- also when a source of higher priority gives a proper list
+                for hi in SOURCES[:SOURCES.index(src)]:
+                    cli, sfile, user = self.build_sources([(sec, opt, {src: bad, hi: ["proper_" + hi]})])
+                    o, cap, argv = self.invoke(sb, cli, sfile, user, cwd)
+                    res.count("wrong_type_below_a_valid_source_cases")
+                    if o.ok and cap:
+                        got = getattr(getattr(cap[0][1], sec), opt)
+                        res.violate(f"wrong-type-accepted:{ty}<-{type(bad).__name__}:below-a-valid-{hi}-value",
+                                    f"{sec}.{opt}: {bad!r} from {src} accepted next to a list from {hi}; value in effect {got!r}",
+                                    dict(wit, argv=argv, higher_source=hi))
         return res
 
     def check_observed(self, merged, tier):
